@@ -395,7 +395,7 @@ pub fn build(prop: &str, draws: &[u16], tier: Tier) -> Case {
         "C07" => match s.pick(8) {
             0 => ("mutex", gen::sync_prog(&mut s, &SyncParams { mutex: true, ordered_locks: true, cells: true, max_threads: 3, max_ops: 7 + extra, late_spawn: true, ..sp() })),
             1 => ("rwlock", gen::sync_prog(&mut s, &SyncParams { rwlock: true, cells: true, max_threads: 3, max_ops: 7 + extra, ..sp() })),
-            2 => ("mutex+rwlock", gen::sync_prog(&mut s, &SyncParams { mutex: true, rwlock: true, ordered_locks: true, max_threads: 3, max_ops: 7 + extra, joins: true, ..sp() })),
+            2 => ("mutex+rwlock", gen::sync_prog(&mut s, &SyncParams { mutex: true, rwlock: true, ordered_locks: true, final_exclusive: true, max_threads: 3, max_ops: 7 + extra, joins: true, ..sp() })),
             3 => ("try", gen::sync_prog(&mut s, &SyncParams { mutex: true, try_lock: true, rwlock: true, try_rw: true, ordered_locks: true, max_threads: 2, max_ops: 6 + extra, ..sp() })),
             5 => ("try+atomics", gen::sync_prog(&mut s, &SyncParams { mutex: true, try_lock: true, rwlock: true, try_rw: true, atomics: true, ordered_locks: true, max_threads: 2, max_ops: 7 + extra, ..sp() })),
             6 => ("locks+probes", gen::sync_prog(&mut s, &SyncParams { mutex: true, rwlock: true, probes: true, ordered_locks: true, max_threads: 3, max_ops: 8 + extra, joins: true, ..sp() })),
